@@ -11,8 +11,41 @@ def tevOf? : Term → Option TEv
 def caseOf? : Term → Option (Cfg × List TEv)
   | .list [.atom "case", c, .list (.atom "evs" :: evs)] => do
       let cfg ← cfgOf? c
-      -- only configurations the daemon accepts (hold time 0 or 3..65535)
-      if TimedSpec.cfgValid cfg then pure (cfg, (← evs.mapM tevOf?)) else none
+      -- only configurations the daemon accepts (hold time 0 or 3..65535) and histories a driver
+      -- can produce (`TimedSpec.wfHist`: no injected timer inputs, no parsed OPEN with hold 1/2)
+      let h ← evs.mapM tevOf?
+      if TimedSpec.cfgValid cfg && TimedSpec.wfHist h then pure (cfg, h) else none
+  | _ => none
+
+/-! Timer-probe cases: `(probe <out>*)`, outputs of the passive task only. -/
+def probeOutOf? : Term → Option POut
+  | .list [.atom "set-hold", n] => (asNat? n).map fun n => .conn .passive (.setHold n)
+  | .list [.atom "set-ka", n] => (asNat? n).map fun n => .conn .passive (.setKa n)
+  | .atom "send-keepalive" => some (.conn .passive .sendKeepalive)
+  | .list [.atom "state", s] => (stateOf? s).map fun s => .conn .passive (.stateChanged s)
+  | .atom "stop-active-connect" => some .stopActiveConnect
+  | _ => none
+
+def probeCaseOf? : Term → Option (List POut)
+  | .list (.atom "probe" :: outs) => outs.mapM probeOutOf?
+  | _ => none
+
+def armedT : Armed → Term
+  | .empty => sym "empty" | .far => sym "far" | .secs n => nat n
+def armedOf? : Term → Option Armed
+  | .atom "empty" => some .empty | .atom "far" => some .far
+  | t => (asNat? t).map .secs
+def slotObsT (name : String) (o : SlotObs) : Term :=
+  tag name [sym (if o.fires then "fires" else "quiet"), armedT o.armed]
+def slotObsOf? (name : String) : Term → Option SlotObs
+  | .list [.atom n, .atom f, a] =>
+      if n == name && (f == "fires" || f == "quiet") then
+        (armedOf? a).map fun a => { fires := f == "fires", armed := a }
+      else none
+  | _ => none
+def probeObsT (o : ProbeObs) : Term := tag "probe-obs" [slotObsT "hold" o.hold, slotObsT "ka" o.ka]
+def probeObsOf? : Term → Option ProbeObs
+  | .list [.atom "probe-obs", h, k] => do pure { hold := (← slotObsOf? "hold" h), ka := (← slotObsOf? "ka" k) }
   | _ => none
 
 def firedT (f : Fired) : Term :=
@@ -51,12 +84,24 @@ def verdictStr : TimedSpec.Verdict → String
 def handler (mode : String) (line : String) : String :=
   match mode with
   | "model" =>
+      match (parse line).bind probeCaseOf? with
+      | some outs => toStr (probeObsT (probe outs))
+      | none =>
       match (parse line).bind caseOf? with
       | some (cfg, h) => toStr (traceT (run cfg h))
       | none => "(bad-case)"
   | "oracle" =>
       match parseMany line with
       | some [c, o] =>
+          match probeCaseOf? c with
+          | some outs =>
+              match probeObsOf? o with
+              | some po =>
+                  match TimedSpec.probeCheck outs po with
+                  | none => "ok"
+                  | some e => s!"fail clause={e}"
+              | none => "fail clause=unparsable-observation"
+          | none =>
           match caseOf? c with
           | some (cfg, h) =>
               match traceOf? h o with
